@@ -269,6 +269,8 @@ package sbom
 //@   ensures [C08:indexNodes:keys] result != nil && fresh(result) && (forall k string :: (k in result) <==> (k in fieldset(nl.Nodes, Id)))
 //@   invariant L0: ret != nil && fresh(ret) && (forall k string :: (k in ret) <==> (k in fieldsetn(nl.Nodes, Id, _i)))
 //@   invariant L0: forall k string :: (k in ret) ==> ret[k] != nil && ret[k].Id == k && (ret[k] in elemsn(nl.Nodes, _i))
+//@   invariant L0: uniqueIdx(nl) ==> (forall i0 int :: 0 <= i0 && i0 < _i ==> (nl.Nodes[i0].Id in ret) && ret[nl.Nodes[i0].Id] == nl.Nodes[i0])
+//@   ensures [C08:indexNodes:byIndex] uniqueIdx(nl) ==> (forall i0 int :: 0 <= i0 && i0 < len(nl.Nodes) ==> (nl.Nodes[i0].Id in result) && result[nl.Nodes[i0].Id] == nl.Nodes[i0])
 //@   ensures [C08:indexNodes:values] forall k string :: (k in result) ==> result[k] != nil && result[k].Id == k && (result[k] in elems(nl.Nodes))
 
 //@ func NodeList.indexEdges
@@ -524,14 +526,41 @@ package sbom
 //@   invariant L2: (forall x string :: (x in idDict) <==> (x in elems(ids))) && !(nil in elems(newNodeList)) && (forall y string :: (y in fieldset(newNodeList, Id)) <==> ((y in fieldset(nl.Nodes, Id)) && !(y in elems(ids))))
 //@   invariant L2: forall r string :: (r in elems(newRootElements)) ==> ((r in elems(nl.RootElements)) && !(r in elems(ids)))
 
+//@ pred uniqueIdx(nl *NodeList) = forall i int, j int :: 0 <= i && i < j && j < len(nl.Nodes) ==> nl.Nodes[i].Id != nl.Nodes[j].Id
+
+// the root list does not share its backing array with an edge's target list
+//@ pred addSep(nl *NodeList, nl2 *NodeList) = (forall e *Edge :: ((e in elems(nl.Edges)) || (e in elems(nl2.Edges))) ==> arr(e.To) == nil || arr(e.To) != arr(nl.RootElements))
+
+
 //@ func NodeList.Add
-//@   props C04, C08
+//@   props C04, C08, C09
 //@   requires validNL(nl) && validNL(nl2) && separatedNL(nl, nl2)
 //@   assigns nl.Nodes, nl.Edges, nl.RootElements, (nl.Nodes)[*]
 //@   ensures [validNL] validNL(nl)
+//@   ensures [C09:add:ids] (forall x string :: (x in fieldset(nl.Nodes, Id)) <==> ((x in old(fieldset(nl.Nodes, Id))) || (x in fieldset(nl2.Nodes, Id))))
+//@   ensures [C09:add:roots] old(addSep(nl, nl2)) ==> (forall r string :: (r in elems(nl.RootElements)) <==> ((r in old(elems(nl.RootElements))) || (r in elems(nl2.RootElements))))
+//@   ensures [C09:add:keep:Version] forall i0 int :: 0 <= i0 && i0 < old(len(nl.Nodes)) && old(nl.Nodes[i0].Version) != "" ==> nl.Nodes[i0].Version == old(nl.Nodes[i0].Version)
+//@   ensures [C09:add:fill:Version] old(uniqueIdx(nl)) ==> (forall i0 int, j int :: 0 <= i0 && i0 < old(len(nl.Nodes)) && 0 <= j && j < len(nl2.Nodes) && nl2.Nodes[j].Id == nl.Nodes[i0].Id && nl.Nodes[i0].Version == "" ==> nl2.Nodes[j].Version == "")
+//@   invariant L0: forall i0 int :: 0 <= i0 && i0 < old(len(nl.Nodes)) && old(nl.Nodes[i0].Version) != "" ==> nl.Nodes[i0].Version == old(nl.Nodes[i0].Version)
+//@   invariant L0: old(uniqueIdx(nl)) ==> (forall i0 int :: 0 <= i0 && i0 < old(len(nl.Nodes)) ==> (nl.Nodes[i0].Id in existingNodes) && existingNodes[nl.Nodes[i0].Id] == nl.Nodes[i0])
+//@   invariant L0: old(uniqueIdx(nl)) ==> (forall i0 int, j int :: 0 <= i0 && i0 < old(len(nl.Nodes)) && 0 <= j && j < _i && nl2.Nodes[j].Id == nl.Nodes[i0].Id && nl.Nodes[i0].Version == "" ==> nl2.Nodes[j].Version == "")
+//@   invariant L0: nl2.Nodes == old(nl2.Nodes) && (forall j int :: 0 <= j && j < len(nl2.Nodes) ==> nl2.Nodes[j] == old(nl2.Nodes[j]))
+//@   invariant L0: len(nl.Nodes) >= old(len(nl.Nodes)) && (forall i0 int :: 0 <= i0 && i0 < old(len(nl.Nodes)) ==> nl.Nodes[i0] == old(nl.Nodes[i0]) && nl.Nodes[i0].Id == old(nl.Nodes[i0].Id))
+//@   invariant L1: len(nl.Nodes) >= old(len(nl.Nodes)) && (forall i0 int :: 0 <= i0 && i0 < old(len(nl.Nodes)) ==> nl.Nodes[i0] == old(nl.Nodes[i0]))
+//@   invariant L2: len(nl.Nodes) >= old(len(nl.Nodes)) && (forall i0 int :: 0 <= i0 && i0 < old(len(nl.Nodes)) ==> nl.Nodes[i0] == old(nl.Nodes[i0]))
+//@   ensures [C08:add:edgesClosed] closedEdges(nl)
+//@   ensures [C08:add:normalised] normalisedNL(nl)
 //@   invariant L0: validNL(nl) && validNL(nl2)
+//@   invariant L0: existingNodes != nil && (forall k string :: (k in existingNodes) <==> (k in old(fieldset(nl.Nodes, Id)))) && (forall k string :: (k in existingNodes) ==> existingNodes[k] != nil && existingNodes[k].Id == k && (existingNodes[k] in old(elems(nl.Nodes))))
+//@   invariant L0: (forall x string :: (x in fieldset(nl.Nodes, Id)) <==> ((x in old(fieldset(nl.Nodes, Id))) || (x in fieldsetn(nl2.Nodes, Id, _i))))
+//@   invariant L0: old(addSep(nl, nl2)) ==> addSep(nl, nl2) && (forall r string :: (r in elems(nl.RootElements)) <==> (r in old(elems(nl.RootElements))))
 //@   invariant L1: validNL(nl) && validNL(nl2)
+//@   invariant L1: old(addSep(nl, nl2)) ==> addSep(nl, nl2)
+//@   invariant L1: old(addSep(nl, nl2)) ==> (forall r string :: (r in elems(nl.RootElements)) <==> (r in old(elems(nl.RootElements))))
+//@   invariant L1: existingEdges != nil && (forall f string, t Edge_Type :: (f in existingEdges) && (t in existingEdges[f]) ==> len(existingEdges[f][t]) >= 1 && existingEdges[f][t][0] != nil && (existingEdges[f][t][0] in elems(nl.Edges)))
 //@   invariant L2: validNL(nl) && validNL(nl2)
+//@   invariant L2: old(addSep(nl, nl2)) ==> (forall r string :: (r in elems(nl.RootElements)) <==> ((r in old(elems(nl.RootElements))) || (r in elemsn(nl2.RootElements, _i))))
+//@   invariant L2: old(addSep(nl, nl2)) ==> (forall k string :: (k in rootElements) ==> (k in old(elems(nl.RootElements))))
 
 //@ func NodeList.RelateNodeListAtID
 //@   props C04, C08
@@ -539,7 +568,6 @@ package sbom
 //@   assigns nl.Nodes, nl.Edges, nl.RootElements, (nl.Edges)[*]
 //@   ensures [validNL] validNL(nl)
 //@   ensures [arrays] (arr(nl.Nodes) == old(arr(nl.Nodes)) || fresh(arr(nl.Nodes))) && (arr(nl.Edges) == old(arr(nl.Edges)) || fresh(arr(nl.Edges))) && nl.RootElements == old(nl.RootElements)
-//@   invariant L0: validNL(nl) && validNL(nl2) && nl2.Nodes == old(nl2.Nodes) && (arr(nl2.Nodes) == nil || arr(nl.Nodes) != arr(nl2.Nodes))
 //@   invariant L0: (arr(nl.Nodes) == old(arr(nl.Nodes)) || fresh(arr(nl.Nodes))) && (arr(nl.Edges) == old(arr(nl.Edges)) || fresh(arr(nl.Edges)))
 //@   invariant L1: validNL(nl) && validNL(nl2)
 //@   invariant L1: (arr(nl.Nodes) == old(arr(nl.Nodes)) || fresh(arr(nl.Nodes))) && (arr(nl.Edges) == old(arr(nl.Edges)) || fresh(arr(nl.Edges)))
